@@ -72,16 +72,22 @@ impl PathSelector {
     /// 2. it doesn't match any of the exclude filters ending with `**` pattern.
     pub fn matches_dir(&self, path: &Path) -> bool {
         self.with_absolute_path(path, |path| {
-            let mut path = path.to_string_lossy();
+            let dir = path.to_string_lossy();
+            let mut path = dir.clone();
             if !path.ends_with(MAIN_SEPARATOR) {
                 path.push(MAIN_SEPARATOR);
             }
+            // A directory can be skipped only if it is excluded itself or if the exclude pattern
+            // is guaranteed to match everything below it. A pattern that merely matches
+            // a prefix of the directory path (e.g. `/foo/b` and `/foo/bar/`) is not enough.
             (self.included_paths.is_empty()
                 || self
                     .included_paths
                     .iter()
                     .any(|p| p.matches_partially(&path)))
-                && self.excluded_paths.iter().all(|p| !p.matches_prefix(&path))
+                && self.excluded_paths.iter().all(|p| {
+                    !(p.matches(&dir) || (p.matches_any_suffix() && p.matches_prefix(&path)))
+                })
         })
     }
 
